@@ -53,6 +53,12 @@ fn apply_fixes(src: &str, fixes: &[Autofix]) -> String {
     result
 }
 
+/// Verification hook: the fix application step of `check --fix`.
+#[cfg(wilfred_garden_verif)]
+pub(crate) fn verif_apply_fixes(src: &str, fixes: &[Autofix]) -> String {
+    apply_fixes(src, fixes)
+}
+
 pub(crate) fn check(
     path: &Path,
     src: &str,
